@@ -1,5 +1,6 @@
 """C15 — an environment's behaviour depends on its contents, not on its history (DESIGN.md §3 C15)."""
-import json, re, collections
+import json, re, collections, glob, os, hashlib
+from common import VERIF
 
 READY = True
 
@@ -157,10 +158,20 @@ def run(r):
     if exe is None:
         return
     shrunk = set()
-    if r.tier == "quick":
-        chunks = [(r.seed, QUICK_HISTORIES)]
-    else:
-        chunks = [(r.seed * 1000 + i, QUICK_HISTORIES) for i in range(THOROUGH_CHUNKS)]
+    # corpus first: minimised past failures (the fixed defect, witnesses of hand mutations)
+    for path in sorted(glob.glob(os.path.join(VERIF, "corpus", "C15", "*.case"))):
+        rc, out, err = r.harness(exe, ["file", path])
+        if rc != 0:
+            r.broken.append(f"harness c15 exited {rc} on corpus {path}: {err[-300:]}")
+            continue
+        r.extra["corpus_histories"] = r.extra.get("corpus_histories", 0) + len(out.splitlines())
+        process(r, exe, out, shrunk)
+    # mjh::Rng streams of neighbouring seeds overlap (same sequence shifted by one draw), so the
+    # harness seeds are spread by a hash of (VERIF_SEED, chunk)
+    def spread(i):
+        return int.from_bytes(hashlib.blake2b(f"C15:{r.seed}:{i}".encode(), digest_size=8).digest(), "big")
+    n_chunks = 1 if r.tier == "quick" else THOROUGH_CHUNKS
+    chunks = [(spread(i), QUICK_HISTORIES) for i in range(n_chunks)]
     for seed, count in chunks:
         rc, out, err = r.harness(exe, ["gen", r.tier, str(count)], env={"VERIF_SEED": str(seed)})
         if rc != 0:
